@@ -210,8 +210,18 @@ def main():
             continue
         for h in HL.valid_histories(parents, r, per_shape):
             jobs.append((h.parents, h.content, r.choice([1, 1, 2])))
+    # every transaction-valid history of the trees with up to 3 blocks (958 of them), all in the thorough tier, an evenly spread
+    # subset in the quick tier
+    enum = []
+    for parents in shapes_upto(3):
+        if parents:
+            enum += HL.enumerate_histories(parents, None if tier != 'quick' else 16)
+    for k, h in enumerate(enum):
+        jobs.append((h.parents, h.content, 1 + k % 2))
+    seenj = set()
+    jobs = [j for j in jobs if not (repr(j) in seenj or seenj.add(repr(j)))]
     rep.cov['bounds'] = dict(tree_blocks=N, histories=len(jobs), transactions='pool of 5 (spends of stable outputs, chained spends, conflicting spends, non-address and OP_RETURN outputs) + one coinbase per block',
-                             threshold='1 or 2, difficulty 1', selection='4 handcrafted histories x 2 thresholds + %d sampled assignments per tree shape (VERIF_SEED)' % per_shape,
+                             threshold='1 or 2, difficulty 1', selection='%d handcrafted histories x 2 thresholds + %d sampled assignments per tree shape (VERIF_SEED) + %s of the 958 transaction-valid histories on trees of up to 3 blocks' % (len(HL.HANDCRAFTED), per_shape, 'all' if tier != 'quick' else '48 evenly spread'),
                              outside='histories outside the sample; stable-memory footprint of block bodies; announced headers (C14/C10)')
     rep.cov['functions_encoded'] = ['GenericUnstableBlocks::new', 'unstable_blocks::{push,pop,peek,get_stable_child}', 'insert_outpoints', 'OutPointsCache::{new,remove,get_tx_out}',
                                     'BlockTree::{new_with_cache,extend_cached,extend,find_mut,remove_child,blocks,into_root_and_remove_from_cache,remove_from_cache,tip_depths,set_root_metrics}',
